@@ -575,6 +575,17 @@ def _bootstrap_guard(e, R):
             "real depth: the nesting bound is gone on that path", e.loc(gp, gp.node), g.fmt_path(esc) if esc else None)
 
 
+def _binds_atom(st, classify):
+    """does the assignment bind one of the names the decision table reads (or a name a later test could read)?  Only assignments to plain
+    local names whose value does not involve an atom are transparent."""
+    tgts = st.targets if isinstance(st, ast.Assign) else [st.target]
+    if not all(isinstance(t_, ast.Name) for t_ in tgts):
+        return True
+    if any(classify(t_) is not None for t_ in tgts):
+        return True
+    return st.value is not None and any(classify(x) is not None for x in ast.walk(st.value) if isinstance(x, (ast.Name, ast.Call)))
+
+
 def r_depth(e, R):
     a = e.anchors
     _bootstrap_guard(e, R)
@@ -635,6 +646,8 @@ def r_depth(e, R):
                 raise _Ret()
             elif isinstance(s_, (ast.Global, ast.Pass, ast.Expr)):
                 continue
+            elif isinstance(s_, (ast.Assign, ast.AugAssign, ast.AnnAssign)) and not _binds_atom(s_, classify):
+                continue            # building the message text: no effect on whether the check raises
             else:
                 raise guards.Inconclusive(f"statement {type(s_).__name__} in the depth check")
     rows = 0
